@@ -22,6 +22,11 @@ mkdir -p "$SH"; rsync -a --delete --exclude target "$ROOT/harness/" "$SH/"
 sed -i "s#path = \"/repo\"#path = \"$SR\"#" "$SH/Cargo.toml"
 [ -d "$SB/main" ] || cp -a "$ROOT/build/main" "$SB/main"
 ( cd "$SH" && RUSTFLAGS="--cfg memvid_verif --check-cfg cfg(memvid_verif)" CARGO_TARGET_DIR="$SB/main" cargo build --release --offline > "$OUT/build.log" 2>&1 ) || { echo "SEED $NAME build failed (see $OUT/build.log)"; git -C "$SR" checkout -q -- .; exit 3; }
+case " $* " in *" C23 "*|*" C38 "*)
+  [ -d "$SB/lite" ] || cp -a "$ROOT/build/lite" "$SB/lite"
+  ( cd "$SH" && RUSTFLAGS="--cfg memvid_verif --check-cfg cfg(memvid_verif)" CARGO_TARGET_DIR="$SB/lite" cargo build --release --offline --no-default-features > "$OUT/build-lite.log" 2>&1 ) || { echo "SEED $NAME lite build failed"; git -C "$SR" checkout -q -- .; exit 3; }
+  export VERIF_LITE_BIN="$SB/lite/release/vcheck" ;;
+esac
 for id in "$@"; do
   t0=$(date +%s)
   VERIF_ROOT="$ROOT" VERIF_SCRATCH_OUT="$OUT" "$SB/main/release/vcheck" "$id" --tier "${SEED_TIER:-quick}" --seed "${VERIF_SEED:-0}" > "$OUT/$id.log" 2>&1
